@@ -256,6 +256,13 @@ func RunGroup(specs []*Spec, seed uint64, o Options) []Result {
 	for i := range specs {
 		r := prs[i]
 		r.t0 = time.Now()
+		sctx := ctx // the context passed to Start
+		var cancelStart context.CancelFunc
+		if cr := core.NewRand(seed).Fork(uint64(r.Spec.Index)).Fork(0xca9ce1); o.CancelCtxP > 0 && cr.Chance(o.CancelCtxP) {
+			sctx, cancelStart = context.WithCancel(ctx)
+			r.ctxCancelUs = cr.Intn(3001)
+			r.ctxCancelled = true
+		}
 		if r.startErr == "" && o.RaceStart >= 2 {
 			// k racing Start calls released together: the losers' errors are expected, exactly one must win
 			var sw sync.WaitGroup
@@ -267,7 +274,7 @@ func RunGroup(specs []*Spec, seed uint64, o Options) []Result {
 				go func() {
 					defer sw.Done()
 					<-gun
-					err := ws.Start(ctx, r.ID)
+					err := ws.Start(sctx, r.ID)
 					smu.Lock()
 					if err == nil {
 						r.startOK++
@@ -284,11 +291,14 @@ func RunGroup(specs []*Spec, seed uint64, o Options) []Result {
 				r.startErr = "start: none of the racing Start calls succeeded: " + lastErr
 			}
 		} else if r.startErr == "" {
-			if err := ws.Start(ctx, r.ID); err != nil {
+			if err := ws.Start(sctx, r.ID); err != nil {
 				r.startErr = "start: " + err.Error()
 			} else {
 				r.startOK = 1
 			}
+		}
+		if cancelStart != nil { // Start has returned: cancel its context after the drawn delay
+			time.AfterFunc(time.Duration(r.ctxCancelUs)*time.Microsecond, cancelStart)
 		}
 		if r.startErr != "" {
 			continue
@@ -408,7 +418,7 @@ func (r *PlanRun) finish() Result {
 	allOK := outcomes["err"]+outcomes["perm"]+outcomes["wrongtype"]+outcomes["overrun"] == 0
 	dist := map[string]any{"events": len(evs), "kinds": kinds, "outcomes": outcomes, "hang": hang,
 		"after_release": after, "probes": probes, "late_starts": lateStarts, "late_ends": lateEnds,
-		"start_ok": r.startOK, "racing_starts": r.raced}
+		"start_ok": r.startOK, "racing_starts": r.raced, "start_ctx_cancelled": r.ctxCancelled, "start_ctx_cancel_us": r.ctxCancelUs}
 	for k, v := range sp.Dist {
 		dist[k] = v
 	}
